@@ -9,7 +9,7 @@
    time.Time is Z nanoseconds; the zero Time is None.  Float kernels are
    Section variables: the jitter accumulator type J with its update and its
    uint32 read-out, and the DLSR conversion. *)
-From IV Require Import Base.Word Base.F64 Model.SenderStream.
+From IV Require Import Base.Word Base.F64 Base.KMap Model.SenderStream.
 From Coq Require Import Floats.
 
 Definition HIST : Z := 8192.    (* size * packetsPerHistoryEntry = 128 * 64 *)
@@ -166,26 +166,9 @@ Section ReceiverInterceptor.
 
   Definition rtab := list (Z * (Z * rstate J)).
 
-  Fixpoint rt_put (k : Z) (v : Z * rstate J) (t : rtab) : rtab :=
-    match t with
-    | [] => [(k, v)]
-    | (k', v') :: tl =>
-        if k <? k' then (k, v) :: t
-        else if k =? k' then (k, v) :: tl
-        else (k', v') :: rt_put k v tl
-    end.
-
-  Fixpoint rt_del (k : Z) (t : rtab) : rtab :=
-    match t with
-    | [] => []
-    | (k', v') :: tl => if k =? k' then tl else (k', v') :: rt_del k tl
-    end.
-
-  Fixpoint rt_get (k : Z) (t : rtab) : option (Z * rstate J) :=
-    match t with
-    | [] => None
-    | (k', v') :: tl => if k =? k' then Some v' else rt_get k tl
-    end.
+  Definition rt_put : Z -> Z * rstate J -> rtab -> rtab := kput.
+  Definition rt_del : Z -> rtab -> rtab := kdel.
+  Definition rt_get : Z -> rtab -> option (Z * rstate J) := kget.
 
   (* a tick reports every stream and advances its report point *)
   Fixpoint rt_tick (now : Z) (t : rtab) : rtab * list (Z * rrep) :=
@@ -221,4 +204,7 @@ Section ReceiverInterceptor.
         let '(t', out) := ri_step t op in
         match op with RITick _ => out :: ri_run t' tl | _ => ri_run t' tl end
     end.
+
+  Fixpoint ri_final (t : rtab) (ops : list riop) : rtab :=
+    match ops with [] => t | op :: tl => ri_final (fst (ri_step t op)) tl end.
 End ReceiverInterceptor.
